@@ -350,6 +350,10 @@ def run_segments(ctx):
 
 
 def build(S):
+    from . import optdefaults
+
+    S.under_contract("hypnotoad.cases.tokamak:TokamakEquilibrium.user_options_factory")
+    optdefaults.check(S, "hypnotoad.cases.tokamak:TokamakEquilibrium.makeRegions", which=("eq",))  # which option a radial limit / size is taken from when only the general one is given
     S.under_contract(FN, FN_1D, FN_SEG, "hypnotoad.cases.tokamak:TokamakEquilibrium.describeSingleNull", "hypnotoad.cases.tokamak:TokamakEquilibrium.describeDoubleNull")
     S.assume("external (assumed): brentq returns a root in its bracket with residual eps; the end-value error of the erf branches IS that residual (proved), its size is brentq's tolerance (assumed)")
     S.assume("trig/erf facts used as axiom instances: sin^2+cos^2=1, sin/cos at 0, pi, 2pi, double-angle formulas, |cos|<=1, d/dx erf = 2/sqrt(pi) exp(-x^2), exp>0")
